@@ -9,7 +9,7 @@ import (
 	"sort"
 	"strconv"
 	"strings"
-	"sync"
+	"syscall"
 	"time"
 )
 
@@ -55,14 +55,16 @@ func parseScript(s string, id int, log *[]string) *vScriptConn {
 	return sc
 }
 
-// real loopback listener that can be switched up/down on one fixed port
+// real loopback listener that can be switched up/down on one fixed port. It is observed synchronously: on
+// loopback a connection is in the accept queue when connect() returns and the bytes are in the receive queue
+// when write() returns, so a non-blocking accept + read after Send sees everything Send produced (no
+// goroutines, no waiting, no timing dependence).
 type vListener struct {
-	sync.Mutex
 	reset    bool // accept, then reset the connection at once
 	addr     string
-	ln       net.Listener
+	ln       *net.TCPListener
 	received map[string]*bytes.Buffer // by remote address of the accepted connection
-	conns    []net.Conn
+	fds      map[string]int
 }
 
 func newVListener() *vListener {
@@ -72,7 +74,7 @@ func newVListener() *vListener {
 	}
 	addr := l.Addr().String()
 	l.Close()
-	return &vListener{addr: addr, received: map[string]*bytes.Buffer{}}
+	return &vListener{addr: addr, received: map[string]*bytes.Buffer{}, fds: map[string]int{}}
 }
 
 func (v *vListener) up() {
@@ -80,8 +82,9 @@ func (v *vListener) up() {
 		return
 	}
 	var err error
+	var ln net.Listener
 	for i := 0; i < 50; i++ {
-		v.ln, err = net.Listen("tcp", v.addr)
+		ln, err = net.Listen("tcp", v.addr)
 		if err == nil {
 			break
 		}
@@ -90,45 +93,53 @@ func (v *vListener) up() {
 	if err != nil {
 		panic(err)
 	}
-	ln := v.ln
-	go func() {
-		for {
-			c, err := ln.Accept()
-			if err != nil {
-				return
-			}
-			if v.reset {
-				if tc, ok := c.(*net.TCPConn); ok {
-					tc.SetLinger(0)
-				}
-				c.Close()
-				continue
-			}
-			v.Lock()
-			buf := &bytes.Buffer{}
-			v.received[c.RemoteAddr().String()] = buf
-			v.conns = append(v.conns, c)
-			v.Unlock()
-			go func() {
-				tmp := make([]byte, 65536)
-				for {
-					n, err := c.Read(tmp)
-					if n > 0 {
-						v.Lock()
-						buf.Write(tmp[:n])
-						v.Unlock()
+	v.ln = ln.(*net.TCPListener)
+}
+
+// accept whatever is pending (resetting it at once in reset mode) and read whatever has arrived
+func (v *vListener) collect() {
+	if v.ln != nil {
+		if rc, err := v.ln.SyscallConn(); err == nil {
+			for {
+				nfd := -1
+				var peer string
+				rc.Control(func(fd uintptr) {
+					k, sa, e := syscall.Accept4(int(fd), syscall.SOCK_NONBLOCK|syscall.SOCK_CLOEXEC)
+					if e == nil {
+						nfd = k
+						if s4, ok := sa.(*syscall.SockaddrInet4); ok {
+							peer = net.JoinHostPort(net.IP(s4.Addr[:]).String(), strconv.Itoa(s4.Port))
+						}
 					}
-					if err != nil {
-						return
-					}
+				})
+				if nfd < 0 {
+					break
 				}
-			}()
+				if v.reset {
+					syscall.SetsockoptLinger(nfd, syscall.SOL_SOCKET, syscall.SO_LINGER, &syscall.Linger{Onoff: 1, Linger: 0})
+					syscall.Close(nfd)
+					continue
+				}
+				v.fds[peer] = nfd
+				v.received[peer] = &bytes.Buffer{}
+			}
 		}
-	}()
+	}
+	buf := make([]byte, 65536)
+	for peer, fd := range v.fds {
+		for {
+			k, _, e := syscall.Recvfrom(fd, buf, syscall.MSG_DONTWAIT)
+			if e != nil || k <= 0 {
+				break
+			}
+			v.received[peer].Write(buf[:k])
+		}
+	}
 }
 
 func (v *vListener) down() {
 	if v.ln != nil {
+		v.collect()
 		v.ln.Close()
 		v.ln = nil
 	}
@@ -136,22 +147,10 @@ func (v *vListener) down() {
 
 func (v *vListener) closeAll() {
 	v.down()
-	v.Lock()
-	for _, c := range v.conns {
-		c.Close()
+	for k, fd := range v.fds {
+		syscall.Close(fd)
+		delete(v.fds, k)
 	}
-	v.conns = nil
-	v.Unlock()
-}
-
-func (v *vListener) total() int {
-	v.Lock()
-	defer v.Unlock()
-	n := 0
-	for _, b := range v.received {
-		n += b.Len()
-	}
-	return n + 1000000*len(v.received)
 }
 
 var vSendResets int
@@ -185,8 +184,9 @@ func vDialCallback(conn net.Conn) {
 	vSendDialed = append(vSendDialed, conn)
 	if vSendLis != nil && vSendLis.reset {
 		vSendResets++
-		// the destination accepts and resets: wait until the reset has arrived, so that the write that
-		// follows fails deterministically
+		// the destination accepts and resets: do it now and wait until the reset has arrived, so that the
+		// write that follows fails deterministically
+		vSendLis.collect()
 		conn.SetReadDeadline(time.Now().Add(2 * time.Second))
 		tmp := make([]byte, 16)
 		conn.Read(tmp)
@@ -250,30 +250,7 @@ func init() {
 		want, _ := m.Bytes()
 		before := len(vSendLog)
 		err := vSendTarget.Send(m)
-		// quiescence on the listener side: every dialed connection accepted, no byte for 3 ms
-		deadline := time.Now().Add(500 * time.Millisecond)
-		last, stable := -1, 0
-		for time.Now().Before(deadline) {
-			vSendLis.Lock()
-			acc := 0
-			for _, d := range vSendDials {
-				if _, ok := vSendLis.received[d]; ok {
-					acc++
-				}
-			}
-			vSendLis.Unlock()
-			t := vSendLis.total()
-			if (vSendLis.reset || acc == len(vSendDials)-vSendResets) && t == last {
-				stable++
-				if stable >= 3 {
-					break
-				}
-			} else {
-				stable = 0
-			}
-			last = t
-			time.Sleep(time.Millisecond)
-		}
+		vSendLis.collect()
 		res := "ok"
 		if err != nil {
 			res = "err"
@@ -281,7 +258,6 @@ func init() {
 		out := []string{res}
 		out = append(out, vSendLog[before:]...)
 		var dl []string
-		vSendLis.Lock()
 		for k, d := range vSendDials {
 			if buf, ok := vSendLis.received[d]; ok {
 				n := bytes.Count(buf.Bytes(), want)
@@ -290,7 +266,6 @@ func init() {
 				}
 			}
 		}
-		vSendLis.Unlock()
 		sort.Strings(dl)
 		out = append(out, dl...)
 		out = append(out, "dials="+strconv.Itoa(len(vSendDials)))
